@@ -12,6 +12,7 @@ import (
 	"time"
 
 	"github.com/brocaar/lorawan"
+	"github.com/brocaar/lorawan/applayer/clocksync"
 
 	"verifharness/internal/cases"
 	"verifharness/internal/cq"
@@ -272,7 +273,7 @@ func aliasCase(s *cases.Set, r *cq.RNG, op int, fopts bool, i int) {
 	shared := &lorawan.DataPayload{Bytes: backing[8 : 8+n : 8+n+spare]}
 	k := key(r)
 	mts := []lorawan.MType{lorawan.UnconfirmedDataUp, lorawan.UnconfirmedDataDown, lorawan.ConfirmedDataUp, lorawan.ConfirmedDataDown}
-	base := framefmt.DataFrame(r, framefmt.Opt{MType: mts[i%4], Port: 1 + r.Intn(200), FCntHigh: i%3 != 0})
+	base := dataFrame(r, framefmt.Opt{MType: mts[i%4], Port: 1 + r.Intn(200), FCntHigh: i%3 != 0})
 	build := func(pl *lorawan.DataPayload, second bool) lorawan.PHYPayload {
 		m := *base.MACPayload.(*lorawan.MACPayload)
 		if second {
@@ -332,6 +333,52 @@ func aliasCase(s *cases.Set, r *cq.RNG, op int, fopts bool, i int) {
 	}
 }
 
+// foreignCases: frames whose FRMPayload / FOpts contain elements of a Payload type that does not come from the
+// library (framefmt.Opaque, an application-layer clocksync.Command), alone and mixed with library types, through
+// Encrypt* and Decrypt* of the encrypted frame. On the wire such an element is the bytes its MarshalBinary returns.
+func foreignCases(s *cases.Set, r *cq.RNG, i int) {
+	mts := []lorawan.MType{lorawan.UnconfirmedDataUp, lorawan.UnconfirmedDataDown, lorawan.ConfirmedDataUp, lorawan.ConfirmedDataDown}
+	mt := mts[i%4]
+	up := mt == lorawan.UnconfirmedDataUp || mt == lorawan.ConfirmedDataUp
+	sd := r.U64()
+	shape := i % 7
+	mk := func() lorawan.PHYPayload {
+		rr := cq.NewRNG(sd)
+		p := dataFrame(rr, framefmt.Opt{MType: mt, Port: 1 + rr.Intn(200), FCntHigh: i%3 != 0})
+		m := p.MACPayload.(*lorawan.MACPayload)
+		op := func(n int) lorawan.Payload { return &framefmt.Opaque{B: rr.Bytes(n)} }
+		switch shape {
+		case 0:
+			m.FRMPayload = []lorawan.Payload{op(1 + rr.Intn(40))}
+		case 1:
+			m.FRMPayload = []lorawan.Payload{op(1 + rr.Intn(20)), &lorawan.DataPayload{Bytes: rr.Bytes(1 + rr.Intn(20))}}
+		case 2:
+			m.FRMPayload = []lorawan.Payload{&lorawan.DataPayload{Bytes: rr.Bytes(1 + rr.Intn(20))}, op(1 + rr.Intn(20)), op(rr.Intn(3))}
+		case 3:
+			m.FHDR.FOpts = []lorawan.Payload{op(1 + rr.Intn(15))}
+		case 4:
+			m.FHDR.FOpts = append(framefmt.ValidCmds(rr, up, 6), op(1+rr.Intn(5)))
+		case 5:
+			m.FHDR.FOpts = append([]lorawan.Payload{op(1 + rr.Intn(5))}, framefmt.ValidCmds(rr, up, 6)...)
+		default:
+			pt := uint8(202)
+			m.FPort = &pt
+			m.FRMPayload = []lorawan.Payload{&clocksync.Command{CID: clocksync.AppTimeReq, Payload: &clocksync.AppTimeReqPayload{DeviceTime: rr.U32(), Param: clocksync.AppTimeReqPayloadParam{AnsRequired: rr.Bool(), TokenReq: uint8(rr.Intn(16))}}}}
+			m.FHDR.FOpts = []lorawan.Payload{op(1 + rr.Intn(8))}
+		}
+		return p
+	}
+	k := key(r)
+	kind := fmt.Sprintf("meth-foreign-shape%d", shape)
+	for _, enc := range []int{0, 2} {
+		methCase(s, enc, mk(), k, kind, "foreign:")
+		p := mk()
+		if apply(enc, &p, k) != cq.Err {
+			methCase(s, enc+1, p, k, kind, "foreign:")
+		}
+	}
+}
+
 // sliceCase: the caller keeps the []Payload SLICE it put into the frame (one message fanned out to several
 // devices, a retransmission with FCnt + 1): the same slice is put into three frames (other DevAddr, FCnt + 1, other
 // key) which are encrypted in turn. Every call is an ordinary compared case whose frame term is printed from the
@@ -356,7 +403,7 @@ func sliceCase(s *cases.Set, r *cq.RNG, fopts bool, i int) {
 		b, _ := e.MarshalBinary()
 		origBytes = append(origBytes, append([]byte{}, b...))
 	}
-	base := framefmt.DataFrame(r, framefmt.Opt{MType: mt, Port: 1 + r.Intn(200), FCntHigh: i%3 != 0})
+	base := dataFrame(r, framefmt.Opt{MType: mt, Port: 1 + r.Intn(200), FCntHigh: i%3 != 0})
 	op := 2
 	if fopts {
 		op = 0
@@ -462,7 +509,7 @@ func frame(r *cq.RNG, mode int) lorawan.PHYPayload {
 			o.FRMAsMAC, o.FRMLen = true, 1+r.Intn(20)
 		}
 	}
-	p := framefmt.DataFrame(r, o)
+	p := dataFrame(r, o)
 	if mode == 4 {
 		m := p.MACPayload.(*lorawan.MACPayload)
 		up := o.MType == lorawan.UnconfirmedDataUp || o.MType == lorawan.ConfirmedDataUp
@@ -482,13 +529,63 @@ func frame(r *cq.RNG, mode int) lorawan.PHYPayload {
 	return p
 }
 
+// dataFrame / joinFrame: the framefmt generators with the MHDR Major field drawn from all four values (the library
+// accepts any; the MHDR octet enters every MIC)
+func dataFrame(r *cq.RNG, o framefmt.Opt) lorawan.PHYPayload {
+	p := framefmt.DataFrame(r, o)
+	p.MHDR.Major = lorawan.Major(r.Intn(4))
+	return p
+}
+
+func joinFrame(r *cq.RNG, kind int) lorawan.PHYPayload {
+	p := framefmt.JoinFrame(r, kind)
+	p.MHDR.Major = lorawan.Major(r.Intn(4))
+	return p
+}
+
+// opaquify replaces *DataPayload elements of FRMPayload / FOpts by a Payload implementation that does not come
+// from the library (framefmt.Opaque; on the wire it is the bytes its MarshalBinary returns). how: 0 all, 1 FRMPayload
+// only, 2 FOpts only, 3 FRMPayload split into [Opaque, DataPayload].
+func opaquify(p lorawan.PHYPayload, how int) lorawan.PHYPayload {
+	m, ok := p.MACPayload.(*lorawan.MACPayload)
+	if !ok {
+		return p
+	}
+	c := *m
+	conv := func(l []lorawan.Payload) []lorawan.Payload {
+		out := make([]lorawan.Payload, len(l))
+		for i, e := range l {
+			if d, ok := e.(*lorawan.DataPayload); ok {
+				out[i] = &framefmt.Opaque{B: append([]byte{}, d.Bytes...)}
+			} else {
+				out[i] = e
+			}
+		}
+		return out
+	}
+	if how == 0 || how == 1 {
+		c.FRMPayload = conv(m.FRMPayload)
+	}
+	if how == 0 || how == 2 {
+		c.FHDR.FOpts = conv(m.FHDR.FOpts)
+	}
+	if how == 3 && len(m.FRMPayload) == 1 {
+		if d, ok := m.FRMPayload[0].(*lorawan.DataPayload); ok && len(d.Bytes) >= 2 {
+			h := len(d.Bytes) / 2
+			c.FRMPayload = []lorawan.Payload{&framefmt.Opaque{B: append([]byte{}, d.Bytes[:h]...)}, &lorawan.DataPayload{Bytes: append([]byte{}, d.Bytes[h:]...)}}
+		}
+	}
+	p.MACPayload = &c
+	return p
+}
+
 func main() {
 	log.SetOutput(io.Discard)
 	dir, seed, thorough := cases.Args()
 	r := cq.NewRNG(seed)
 	nr = cq.NewRNG(seed ^ 0x9e3779b97f4a7c15)
 	s := cases.New("C03", dir, "LW.Corr.C03",
-		"FIPS-197 C.1 first; corpus: 16-byte FOpts through EncryptFOpts/DecryptFOpts (C03-1), FPort 0 with empty FRMPayload through DecryptFRMPayload (C05-1). func EncryptFRMPayload: payload lengths 0,1,15,16,17,31,32,33,255,256 + random (thorough: every length 0..255 in both directions + random up to 600), one 4112-byte payload (257 blocks: counter byte wraps), counters >= 2^16 in 70%, both directions; func EncryptFOpts: every length 0..15 x aFCntDown x direction, 16..20 (error). PHYPayload methods: frames with MAC commands in FOpts (0..15 bytes) and application payload, commands on port 0, no port, raw FOpts 16..20 bytes, an unencodable command in FOpts, raw (undecodable) bytes, FPort 0 together with FOpts (counter choice boundary), FPort absent with a non-empty FRMPayload (lengths 1..40, both directions, Encrypt and Decrypt); Encrypt then Decrypt chains; wrong payload types. Caller's memory: frames whose single payload object (FRMPayload, or a raw FOpts element) is kept by the caller and lives inside a guarded buffer with spare capacity 0/5/16/31: after Encrypt/Decrypt the buffer is unchanged, the stored payload shares no memory with it, and the same object put into a second frame (other DevAddr, FCnt + 1) gives that frame's model ciphertext (frame terms printed from a private copy of the plaintext). FPort sweep of the FOpts methods (FPort absent, 1, 2, 127, 128, 222..225, 254, 255; thorough every FPort) x 4 MTypes. Caller's slices: one []Payload slice (FRMPayload message, or 1-3 FOpts commands / raw FOpts) kept by the caller and put into three frames (FCnt + 1, other DevAddr, other key) that are encrypted in turn - each an ordinary case printed from the original objects; the slice must still hold them afterwards (caller-slice-modified:). Every exported-function call is also repeated from 8 goroutines at once. History: unrelated library calls (internal/noise) before every compared call; neighbour families of the exported functions run back to back (base call, then the same call with one argument changed: single FCnt bits 16, 31, one more high and one low bit, FCnt + 2^16, direction, one DevAddr bit, key zeroed, one key bit, a longer payload with the same prefix, aFCntDown; then the base call again), each compared with model and specification; every exported-function call is repeated three times later in the process (reverse, same, shuffled order) and must give its first result. Go-side: applying a function twice restores the input. A case is non-trivial unless its byte string is empty.")
+		"FIPS-197 C.1 first; corpus: 16-byte FOpts through EncryptFOpts/DecryptFOpts (C03-1), FPort 0 with empty FRMPayload through DecryptFRMPayload (C05-1). func EncryptFRMPayload: payload lengths 0,1,15,16,17,31,32,33,255,256 + random (thorough: every length 0..255 in both directions + random up to 600), one 4112-byte payload (257 blocks: counter byte wraps), counters >= 2^16 in 70%, both directions; func EncryptFOpts: every length 0..15 x aFCntDown x direction, 16..20 (error). PHYPayload methods: frames with MAC commands in FOpts (0..15 bytes) and application payload, commands on port 0, no port, raw FOpts 16..20 bytes, an unencodable command in FOpts, raw (undecodable) bytes, FPort 0 together with FOpts (counter choice boundary), FPort absent with a non-empty FRMPayload (lengths 1..40, both directions, Encrypt and Decrypt); Encrypt then Decrypt chains; wrong payload types. Caller's memory: frames whose single payload object (FRMPayload, or a raw FOpts element) is kept by the caller and lives inside a guarded buffer with spare capacity 0/5/16/31: after Encrypt/Decrypt the buffer is unchanged, the stored payload shares no memory with it, and the same object put into a second frame (other DevAddr, FCnt + 1) gives that frame's model ciphertext (frame terms printed from a private copy of the plaintext). MHDR Major drawn from 0..3. Foreign Payload types: FRMPayload / FOpts elements that do not come from the library (framefmt.Opaque alone, [Opaque, DataPayload], [DataPayload, Opaque, Opaque], [MAC commands, Opaque], [Opaque, MAC commands], a clocksync.Command on port 202) through Encrypt* and Decrypt* of the encrypted frame. FPort sweep of the FOpts methods (FPort absent, 1, 2, 127, 128, 222..225, 254, 255; thorough every FPort) x 4 MTypes. Caller's slices: one []Payload slice (FRMPayload message, or 1-3 FOpts commands / raw FOpts) kept by the caller and put into three frames (FCnt + 1, other DevAddr, other key) that are encrypted in turn - each an ordinary case printed from the original objects; the slice must still hold them afterwards (caller-slice-modified:). Every exported-function call is also repeated from 8 goroutines at once. History: unrelated library calls (internal/noise) before every compared call; neighbour families of the exported functions run back to back (base call, then the same call with one argument changed: single FCnt bits 16, 31, one more high and one low bit, FCnt + 2^16, direction, one DevAddr bit, key zeroed, one key bit, a longer payload with the same prefix, aFCntDown; then the base call again), each compared with model and specification; every exported-function call is repeated three times later in the process (reverse, same, shuffled order) and must give its first result. Go-side: applying a function twice restores the input. A case is non-trivial unless its byte string is empty.")
 	s.ShardSize = 60
 	// official vector
 	fipsKey := make([]byte, 16)
@@ -587,7 +684,7 @@ func main() {
 					if port > 0 {
 						o.FRMLen = rr.Intn(12)
 					}
-					return framefmt.DataFrame(rr, o)
+					return dataFrame(rr, o)
 				}
 				k := key(r)
 				methCase(s, 0, mk(), k, "meth-port-sweep", fmt.Sprintf("port=%d:", port))
@@ -607,6 +704,7 @@ func main() {
 		for i := 0; i < na; i++ {
 			aliasCase(s, r, []int{2, 3}[i%2], false, i)
 			sliceCase(s, r, i%2 == 1, i)
+			foreignCases(s, r, i)
 			if i%2 == 0 {
 				aliasCase(s, r, []int{0, 1}[(i/2)%2], true, i)
 			}
@@ -621,7 +719,7 @@ func main() {
 			sd := r.U64()
 			mk := func() lorawan.PHYPayload {
 				rr := cq.NewRNG(sd)
-				return framefmt.DataFrame(rr, framefmt.Opt{MType: mt, Port: -1, FRMLen: l, FCntHigh: l%3 != 0})
+				return dataFrame(rr, framefmt.Opt{MType: mt, Port: -1, FRMLen: l, FCntHigh: l%3 != 0})
 			}
 			k := key(r)
 			methCase(s, 2, mk(), k, "meth-noport", "noport:")
